@@ -357,6 +357,9 @@ def run(cx):
     # the receiver enforces the limit its side advertised (PacketReceiver::new hands it on unchanged)
     from props.shared import ctor_initial_state
     ctor_initial_state(cx, "C06.p")
+    # the transfer window that bounds buffered data is tested through packet_id::sub: the id helpers' definitions are part of the bound
+    from props.C01 import inst_id_arith
+    inst_id_arith(cx, "C06.q")
     # a stored packet that can never be delivered (impossible parent leads) is released from the counter
     # when the window passes it but stays held in the delivery entries: the datagram validator's clauses
     from props.C03 import check_validators
